@@ -265,6 +265,7 @@ func main() {
 		}
 	}
 	burstCases(r, thorough)
+	rawChunks(r, thorough)
 	for k, v := range stats {
 		note("stat %s %d", k, v)
 	}
